@@ -43,6 +43,7 @@ class Opts:
         self.comp = True
         self.eq = False
         self.divmod = False
+        self.knob_single_target = False
         self.comp_one_in = 6        # frequency of computed-key reads (whole-container dependencies)
         self.math_builtins = True   # floor / ceil / trunc (print as bare names: excluded where text is re-evaluated)
         self.allow_raise = True     # keep a raising op as the last op (else drop it)
@@ -295,7 +296,7 @@ class Gen:
         if not tg_c:
             return None
         targets = [self.draw(st.sampled_from(tg_c))]
-        if self.draw(st.booleans()):
+        if not self.o.knob_single_target and self.draw(st.booleans()):
             t2 = self.draw(st.sampled_from(tg_c))
             if t2 not in targets:
                 targets.append(t2)
